@@ -131,11 +131,11 @@ mod verif_kani {
         if kani::any() {
             kani::assume(n < 254);
             let r = shl254(&a, n);
-            assert!(bit(&r, i) == (n <= i && i < 254 && bit(&a, i - n)), "spec_shl254/bit-i-is-bit-i-minus-n-below-254");
+            kani::assert(bit(&r, i) == (n <= i && i < 254 && bit(&a, i - n)), "spec_shl254/bit-i-is-bit-i-minus-n-below-254");
         } else {
             kani::assume(n < 256);
             let r = shr4(&a, n);
-            assert!(bit(&r, i) == (i + n < 256 && bit(&a, i + n)), "spec_shr4/bit-i-is-bit-i-plus-n");
+            kani::assert(bit(&r, i) == (i + n < 256 && bit(&a, i + n)), "spec_shr4/bit-i-is-bit-i-plus-n");
         }
     }
 
@@ -143,10 +143,10 @@ mod verif_kani {
     #[kani::proof]
     #[kani::unwind(34)]
     fn consts() {
-        assert!(l(M) == P, "M/is-bn254-scalar-modulus");
-        assert!(l(HALF_M) == HALF, "HALF_M/is-p-minus-1-over-2");
+        kani::assert(l(M) == P, "M/is-bn254-scalar-modulus");
+        kani::assert(l(HALF_M) == HALF, "HALF_M/is-p-minus-1-over-2");
         let (d, c) = add4(&HALF, &HALF);
-        assert!(!c && add4(&d, &ONE).0 == P, "HALF_M/is-p-minus-1-over-2");
+        kani::assert(!c && add4(&d, &ONE).0 == P, "HALF_M/is-p-minus-1-over-2");
     }
 
     // ---- signed comparisons ------------------------------------------------------------------------------
@@ -157,10 +157,10 @@ mod verif_kani {
         let b = any_p();
         let (ka, kb) = (key(&a), key(&b));
         let which: u8 = kani::any();
-        if which == 0 { assert!(l(u_lt(&u(a), &u(b))) == b2l(lt4(&ka, &kb)), "u_lt/signed-less-than"); }
-        if which == 1 { assert!(l(u_gt(&u(a), &u(b))) == b2l(lt4(&kb, &ka)), "u_gt/signed-greater-than"); }
-        if which == 2 { assert!(l(u_lte(&u(a), &u(b))) == b2l(!lt4(&kb, &ka)), "u_lte/signed-less-or-equal"); }
-        if which == 3 { assert!(l(u_gte(&u(a), &u(b))) == b2l(!lt4(&ka, &kb)), "u_gte/signed-greater-or-equal"); }
+        if which == 0 { kani::assert(l(u_lt(&u(a), &u(b))) == b2l(lt4(&ka, &kb)), "u_lt/signed-less-than"); }
+        if which == 1 { kani::assert(l(u_gt(&u(a), &u(b))) == b2l(lt4(&kb, &ka)), "u_gt/signed-greater-than"); }
+        if which == 2 { kani::assert(l(u_lte(&u(a), &u(b))) == b2l(!lt4(&kb, &ka)), "u_lte/signed-less-or-equal"); }
+        if which == 3 { kani::assert(l(u_gte(&u(a), &u(b))) == b2l(!lt4(&ka, &kb)), "u_gte/signed-greater-or-equal"); }
     }
 
     // ---- Operation::eval: comparison and logic operators -------------------------------------------------
@@ -171,14 +171,14 @@ mod verif_kani {
         let b = any_p();
         let (ka, kb) = (key(&a), key(&b));
         let which: u8 = kani::any();
-        if which == 0 { assert!(l(Operation::Eq.eval(u(a), u(b))) == b2l(a == b), "Operation_eval/eq"); }
-        if which == 1 { assert!(l(Operation::Neq.eval(u(a), u(b))) == b2l(a != b), "Operation_eval/neq"); }
-        if which == 2 { assert!(l(Operation::Lt.eval(u(a), u(b))) == b2l(lt4(&ka, &kb)), "Operation_eval/lt-signed"); }
-        if which == 3 { assert!(l(Operation::Gt.eval(u(a), u(b))) == b2l(lt4(&kb, &ka)), "Operation_eval/gt-signed"); }
-        if which == 4 { assert!(l(Operation::Leq.eval(u(a), u(b))) == b2l(!lt4(&kb, &ka)), "Operation_eval/leq-signed"); }
-        if which == 5 { assert!(l(Operation::Geq.eval(u(a), u(b))) == b2l(!lt4(&ka, &kb)), "Operation_eval/geq-signed"); }
-        if which == 6 { assert!(l(Operation::Land.eval(u(a), u(b))) == b2l(a != ZERO && b != ZERO), "Operation_eval/land"); }
-        if which == 7 { assert!(l(Operation::Lor.eval(u(a), u(b))) == b2l(a != ZERO || b != ZERO), "Operation_eval/lor"); }
+        if which == 0 { kani::assert(l(Operation::Eq.eval(u(a), u(b))) == b2l(a == b), "Operation_eval/eq"); }
+        if which == 1 { kani::assert(l(Operation::Neq.eval(u(a), u(b))) == b2l(a != b), "Operation_eval/neq"); }
+        if which == 2 { kani::assert(l(Operation::Lt.eval(u(a), u(b))) == b2l(lt4(&ka, &kb)), "Operation_eval/lt-signed"); }
+        if which == 3 { kani::assert(l(Operation::Gt.eval(u(a), u(b))) == b2l(lt4(&kb, &ka)), "Operation_eval/gt-signed"); }
+        if which == 4 { kani::assert(l(Operation::Leq.eval(u(a), u(b))) == b2l(!lt4(&kb, &ka)), "Operation_eval/leq-signed"); }
+        if which == 5 { kani::assert(l(Operation::Geq.eval(u(a), u(b))) == b2l(!lt4(&ka, &kb)), "Operation_eval/geq-signed"); }
+        if which == 6 { kani::assert(l(Operation::Land.eval(u(a), u(b))) == b2l(a != ZERO && b != ZERO), "Operation_eval/land"); }
+        if which == 7 { kani::assert(l(Operation::Lor.eval(u(a), u(b))) == b2l(a != ZERO || b != ZERO), "Operation_eval/lor"); }
     }
 
     // ---- Operation::eval: Add / Sub ----------------------------------------------------------------------
@@ -189,8 +189,8 @@ mod verif_kani {
         let b = any_p();
         let r = l(Operation::Add.eval(u(a), u(b)));
         let which: u8 = kani::any();
-        if which == 0 { assert!(lt4(&r, &P), "Operation_eval/add-canonical"); }
-        if which == 1 { assert!(r == addmod(&a, &b), "Operation_eval/add-is-sum-mod-p"); }
+        if which == 0 { kani::assert(lt4(&r, &P), "Operation_eval/add-canonical"); }
+        if which == 1 { kani::assert(r == addmod(&a, &b), "Operation_eval/add-is-sum-mod-p"); }
     }
     #[kani::proof]
     #[kani::unwind(34)]
@@ -199,8 +199,8 @@ mod verif_kani {
         let b = any_p();
         let r = l(Operation::Sub.eval(u(a), u(b)));
         let which: u8 = kani::any();
-        if which == 0 { assert!(lt4(&r, &P), "Operation_eval/sub-canonical"); }
-        if which == 1 { assert!(r == submod(&a, &b), "Operation_eval/sub-is-difference-mod-p"); }
+        if which == 0 { kani::assert(lt4(&r, &P), "Operation_eval/sub-canonical"); }
+        if which == 1 { kani::assert(r == submod(&a, &b), "Operation_eval/sub-is-difference-mod-p"); }
     }
 
     // ---- Operation::eval: bitwise -------------------------------------------------------------------------
@@ -211,8 +211,8 @@ mod verif_kani {
         let b = any_p();
         let r = l(Operation::Band.eval(u(a), u(b)));
         let which: u8 = kani::any();
-        if which == 0 { assert!(lt4(&r, &P), "Operation_eval/band-canonical"); }
-        if which == 1 { assert!(r == red1(&bw(&a, &b, 0)), "Operation_eval/band-is-and-reduced-mod-p"); }
+        if which == 0 { kani::assert(lt4(&r, &P), "Operation_eval/band-canonical"); }
+        if which == 1 { kani::assert(r == red1(&bw(&a, &b, 0)), "Operation_eval/band-is-and-reduced-mod-p"); }
     }
     #[kani::proof]
     #[kani::unwind(34)]
@@ -222,10 +222,10 @@ mod verif_kani {
         let r = l(Operation::Bor.eval(u(a), u(b)));
         let t = bw(&a, &b, 1);
         let which: u8 = kani::any();
-        if which == 0 { assert!(lt4(&r, &P), "Operation_eval/bor-canonical"); }
-        if which == 1 { assert!(r == red1(&t), "Operation_eval/bor-is-or-reduced-mod-p"); }
+        if which == 0 { kani::assert(lt4(&r, &P), "Operation_eval/bor-canonical"); }
+        if which == 1 { kani::assert(r == red1(&t), "Operation_eval/bor-is-or-reduced-mod-p"); }
         // sibling clause that must keep holding: when a|b is already below p nothing has to be reduced
-        if which == 2 && lt4(&t, &P) { assert!(r == t, "Operation_eval/bor-exact-when-or-below-p"); }
+        if which == 2 && lt4(&t, &P) { kani::assert(r == t, "Operation_eval/bor-exact-when-or-below-p"); }
     }
     #[kani::proof]
     #[kani::unwind(34)]
@@ -235,9 +235,9 @@ mod verif_kani {
         let r = l(Operation::Bxor.eval(u(a), u(b)));
         let t = bw(&a, &b, 2);
         let which: u8 = kani::any();
-        if which == 0 { assert!(lt4(&r, &P), "Operation_eval/bxor-canonical"); }
-        if which == 1 { assert!(r == red1(&t), "Operation_eval/bxor-is-xor-reduced-mod-p"); }
-        if which == 2 && lt4(&t, &P) { assert!(r == t, "Operation_eval/bxor-exact-when-xor-below-p"); }
+        if which == 0 { kani::assert(lt4(&r, &P), "Operation_eval/bxor-canonical"); }
+        if which == 1 { kani::assert(r == red1(&t), "Operation_eval/bxor-is-xor-reduced-mod-p"); }
+        if which == 2 && lt4(&t, &P) { kani::assert(r == t, "Operation_eval/bxor-exact-when-xor-below-p"); }
     }
 
     // ---- Operation::eval: shifts (and the private helpers they dispatch to) -------------------------------
@@ -248,8 +248,8 @@ mod verif_kani {
         let b = any_p();
         kani::assume(b[1] == 0 && b[2] == 0 && b[3] == 0 && b[0] < 256); // the helpers' debug_assert domain
         let which: u8 = kani::any();
-        if which == 0 { assert!(Operation::Shl.eval(u(a), u(b)) == compute_shl_uint(u(a), u(b)), "Operation_eval/shl-is-compute_shl_uint"); }
-        if which == 1 { assert!(Operation::Shr.eval(u(a), u(b)) == compute_shr_uint(u(a), u(b)), "Operation_eval/shr-is-compute_shr_uint"); }
+        if which == 0 { kani::assert(Operation::Shl.eval(u(a), u(b)) == compute_shl_uint(u(a), u(b)), "Operation_eval/shl-is-compute_shl_uint"); }
+        if which == 1 { kani::assert(Operation::Shr.eval(u(a), u(b)) == compute_shr_uint(u(a), u(b)), "Operation_eval/shr-is-compute_shr_uint"); }
     }
     // shift count below 254
     #[kani::proof]
@@ -261,11 +261,11 @@ mod verif_kani {
         let r = l(Operation::Shl.eval(u(a), u(b)));
         let n = b[0] as usize;
         let which: u8 = kani::any();
-        if which == 0 { assert!(lt4(&r, &P), "Operation_eval/shl-canonical"); }
-        if which == 1 { assert!(r == shl_spec(&a, &b), "Operation_eval/shl-is-shift-masked-254-reduced-mod-p"); }
+        if which == 0 { kani::assert(lt4(&r, &P), "Operation_eval/shl-canonical"); }
+        if which == 1 { kani::assert(r == shl_spec(&a, &b), "Operation_eval/shl-is-shift-masked-254-reduced-mod-p"); }
         // sibling clause: when no bit is shifted out of 254 bits and the shifted value is below p, it is exact
         if which == 2 && shr4(&shl254(&a, n), n) == a && lt4(&shl254(&a, n), &P) {
-            assert!(r == shl254(&a, n), "Operation_eval/shl-exact-when-result-fits-below-p");
+            kani::assert(r == shl254(&a, n), "Operation_eval/shl-exact-when-result-fits-below-p");
         }
     }
     // shift count 254 or 255: circom gives 0
@@ -276,9 +276,9 @@ mod verif_kani {
         let b = any_p();
         kani::assume(b[1] == 0 && b[2] == 0 && b[3] == 0 && (b[0] == 254 || b[0] == 255));
         let r = l(Operation::Shl.eval(u(a), u(b)));
-        assert!(r == ZERO, "Operation_eval/shl-by-254-or-255-is-zero");
+        kani::assert(r == ZERO, "Operation_eval/shl-by-254-or-255-is-zero");
     }
-    // shift count 256 .. p-1: circom gives 0 (the helper has a debug_assert!(b < 256) and reads only the low limb)
+    // shift count 256 .. p-1: circom gives 0 (the helper has a debug_kani::assert(b < 256) and reads only the low limb)
     #[kani::proof]
     #[kani::unwind(34)]
     fn eval_shl_ge_256() {
@@ -286,7 +286,7 @@ mod verif_kani {
         let b = any_p();
         kani::assume(!(b[1] == 0 && b[2] == 0 && b[3] == 0 && b[0] < 256));
         let r = l(Operation::Shl.eval(u(a), u(b)));
-        assert!(r == ZERO, "Operation_eval/shl-by-256-or-more-is-zero");
+        kani::assert(r == ZERO, "Operation_eval/shl-by-256-or-more-is-zero");
     }
     #[kani::proof]
     #[kani::unwind(34)]
@@ -298,12 +298,12 @@ mod verif_kani {
         let i: usize = kani::any();
         kani::assume(i < 256);
         let which: u8 = kani::any();
-        if which == 0 { assert!(lt4(&r, &P), "Operation_eval/shr-canonical"); }
-        if which == 1 { assert!(r == shr_spec(&a, &b), "Operation_eval/shr-is-integer-shift-zero-from-254"); }
+        if which == 0 { kani::assert(lt4(&r, &P), "Operation_eval/shr-canonical"); }
+        if which == 1 { kani::assert(r == shr_spec(&a, &b), "Operation_eval/shr-is-integer-shift-zero-from-254"); }
         // the same, stated bit by bit straight from the property statement
         if which == 2 {
             let expect = small(&b) && i + (b[0] as usize) < 254 && bit(&a, i + b[0] as usize);
-            assert!(bit(&r, i) == expect, "Operation_eval/shr-bit-i-is-bit-i-plus-n");
+            kani::assert(bit(&r, i) == expect, "Operation_eval/shr-bit-i-is-bit-i-plus-n");
         }
     }
     #[kani::proof]
@@ -313,7 +313,7 @@ mod verif_kani {
         let b = any_p();
         kani::assume(!(b[1] == 0 && b[2] == 0 && b[3] == 0 && b[0] < 256));
         let r = l(Operation::Shr.eval(u(a), u(b)));
-        assert!(r == ZERO, "Operation_eval/shr-by-256-or-more-is-zero");
+        kani::assert(r == ZERO, "Operation_eval/shr-by-256-or-more-is-zero");
     }
 
     // ---- Operation::eval: integer division and remainder --------------------------------------------------
@@ -322,14 +322,14 @@ mod verif_kani {
     fn eval_idiv_zero_divisor() {
         let a = any_p();
         let r = l(Operation::Idiv.eval(u(a), u(ZERO)));
-        assert!(r == ZERO, "Operation_eval/idiv-by-zero-is-zero");
+        kani::assert(r == ZERO, "Operation_eval/idiv-by-zero-is-zero");
     }
     #[kani::proof]
     #[kani::unwind(34)]
     fn eval_mod_zero_divisor() {
         let a = any_p();
         let r = l(Operation::Mod.eval(u(a), u(ZERO)));
-        assert!(r == ZERO, "Operation_eval/mod-by-zero-is-zero");
+        kani::assert(r == ZERO, "Operation_eval/mod-by-zero-is-zero");
     }
     // non-zero divisor: quotient / remainder delivered by ruint's Knuth division (attempted; see units.json)
     #[kani::proof]
@@ -341,11 +341,11 @@ mod verif_kani {
         let which: u8 = kani::any();
         if which == 0 {
             let q = l(Operation::Idiv.eval(u(a), u(b)));
-            assert!(!lt4(&a, &q), "Operation_eval/idiv-quotient-at-most-dividend-hence-canonical");
+            kani::assert(!lt4(&a, &q), "Operation_eval/idiv-quotient-at-most-dividend-hence-canonical");
         }
         if which == 1 {
             let r = l(Operation::Mod.eval(u(a), u(b)));
-            assert!(lt4(&r, &b), "Operation_eval/mod-remainder-below-divisor-hence-canonical");
+            kani::assert(lt4(&r, &b), "Operation_eval/mod-remainder-below-divisor-hence-canonical");
         }
     }
 
@@ -357,14 +357,14 @@ mod verif_kani {
         let which: u8 = kani::any();
         if which == 0 {
             let r = l(UnoOperation::Neg.eval(u(a)));
-            assert!(lt4(&r, &P), "UnoOperation_eval/neg-canonical");
+            kani::assert(lt4(&r, &P), "UnoOperation_eval/neg-canonical");
         }
         if which == 1 {
             let r = l(UnoOperation::Neg.eval(u(a)));
-            assert!(r == submod(&ZERO, &a), "UnoOperation_eval/neg-is-zero-minus-a-mod-p");
-            assert!(addmod(&a, &r) == ZERO, "UnoOperation_eval/neg-is-additive-inverse");
+            kani::assert(r == submod(&ZERO, &a), "UnoOperation_eval/neg-is-zero-minus-a-mod-p");
+            kani::assert(addmod(&a, &r) == ZERO, "UnoOperation_eval/neg-is-additive-inverse");
         }
-        if which == 2 { assert!(l(UnoOperation::Id.eval(u(a))) == a, "UnoOperation_eval/id-is-identity"); }
+        if which == 2 { kani::assert(l(UnoOperation::Id.eval(u(a))) == a, "UnoOperation_eval/id-is-identity"); }
     }
     #[kani::proof]
     #[kani::unwind(34)]
@@ -373,8 +373,8 @@ mod verif_kani {
         let b = any_p();
         let c = any_p();
         let r = l(TresOperation::TernCond.eval(u(a), u(b), u(c)));
-        assert!(r == if a != ZERO { b } else { c }, "TresOperation_eval/terncond-selects-b-iff-a-nonzero");
-        assert!(lt4(&r, &P), "TresOperation_eval/terncond-canonical");
+        kani::assert(r == if a != ZERO { b } else { c }, "TresOperation_eval/terncond-selects-b-iff-a-nonzero");
+        kani::assert(lt4(&r, &P), "TresOperation_eval/terncond-canonical");
     }
 
     // ---- the Montgomery evaluator's unimplemented arms -----------------------------------------------------
@@ -402,6 +402,6 @@ mod verif_kani {
         let b = any_p();
         let c = any_p();
         let r = TresOperation::TernCond.eval_fr(fr_raw(a), fr_raw(b), fr_raw(c));
-        assert!(r.0 .0 == if a != ZERO { b } else { c }, "TresOperation_eval_fr/terncond-selects-b-iff-a-nonzero");
+        kani::assert(r.0 .0 == if a != ZERO { b } else { c }, "TresOperation_eval_fr/terncond-selects-b-iff-a-nonzero");
     }
 }
